@@ -46,6 +46,7 @@ def setup(ctx):
     ]
     ctx.require("monitor", "old_version_attempts_server", 16)
     ctx.require("monitor", "controls_ok", 6)
+    ctx.require("monitor", "successive_contexts", 12)
     ctx.require("monitor", "new_version_ok", 8)
     ctx.require("monitor", "old_version_attempts_client", 3)
     ctx.require("monitor", "faulty_material_starts", 30)
@@ -120,6 +121,23 @@ class RawTLSServer:
                 return
             try:
                 s.settimeout(5)
+                if not isinstance(self.ctx, ssl.SSLContext):
+                    # a PyOpenSSL context, driven by PyOpenSSL's own blocking Connection: nothing of nauyaca is involved
+                    from OpenSSL import SSL
+
+                    s.setblocking(True)
+                    pc = SSL.Connection(self.ctx, s)
+                    pc.set_accept_state()
+                    pc.do_handshake()
+                    self.versions.append(pc.get_protocol_version_name())
+                    try:
+                        pc.recv(100)
+                        pc.sendall(b"20 text/gemini\r\ncontrol\n")
+                        pc.shutdown()
+                    except Exception:
+                        pass
+                    s.close()
+                    continue
                 ss = self.ctx.wrap_socket(s, server_side=True)
                 self.versions.append(ss.version())
                 try:
@@ -499,25 +517,14 @@ def run(ctx):
             handler_calls[0] += 1
             return GeminiResponse(status=20, meta="text/gemini", body="ok\n")
 
-        ps = live.ProtocolServer(lambda: GeminiServerProtocol(handler), backend="pyopenssl")
-        # control pyopenssl server: same TLSServerProtocol, permissive context
-
-        async def main_ctl():
-            loop = asyncio.get_running_loop()
-            server = await loop.create_server(lambda: TLSServerProtocol(lambda: GeminiServerProtocol(handler), pctl_ctx), "127.0.0.1", 0)
-            async with server:
-                await server.serve_forever()
-
-        lt = live._LoopThread()
-        lt.start(main_ctl)
-        try:
+        # control pyopenssl server: a permissive PyOpenSSL context behind PyOpenSSL's own blocking Connection (the
+        # control must not pass through the code under test, or a floor applied there silences it)
+        with RawTLSServer(pctl_ctx) as pctl:
             for vname, v in VERSIONS[:2]:
-                r = try_handshake(lt.port, permissive_client(v, v))
+                r = try_handshake(pctl.port, permissive_client(v, v))
                 controls[("pyopenssl", vname)] = (r[0] == "ok" and r[1] == vname)
                 if controls[("pyopenssl", vname)]:
                     ctx.count("monitor", "controls_ok")
-        finally:
-            lt.stop()
         ctx.extra["controls"] = {f"{k[0]}/{k[1]}": v for k, v in controls.items()}
 
         # ---- server cells through start_server (four construction paths)
@@ -686,6 +693,41 @@ def run(ctx):
                     probe_server(ctx, label, lt.port, controls, ciphers_list, "pyopenssl")
                 finally:
                     lt.stop()
+        # ---- servers that follow one another in one process (a restart or reload without leaving the interpreter):
+        # each context is built, lowered, probed, dropped and collected before the next is built, so that anything
+        # remembered about an earlier context (by identity, by count) meets its successors
+        import gc
+
+        def one_successor(i):
+            req = bool(i % 2)
+            if i % 3 == 2:
+                label, backend = f"successor:create_server_context:request_client_cert={req}:seclevel0", "stdlib"
+                c = create_server_context(ident.certfile, ident.keyfile, request_client_cert=req)
+                c.set_ciphers("ALL:@SECLEVEL=0")
+                with RawTLSServer(c) as rs:
+                    probe_server(ctx, label, rs.port, controls, ciphers_list[:1], "stdlib", light=True)
+                return
+            label, backend = f"successor:create_pyopenssl_server_context:request_client_cert={req}:seclevel0", "pyopenssl"
+            c = create_pyopenssl_server_context(ident.certfile, ident.keyfile, request_client_cert=req)
+            c.set_cipher_list(b"ALL:@SECLEVEL=0")
+
+            async def main_s():
+                loop = asyncio.get_running_loop()
+                server = await loop.create_server(lambda: TLSServerProtocol(lambda: GeminiServerProtocol(handler), c), "127.0.0.1", 0)
+                async with server:
+                    await server.serve_forever()
+
+            lt = live._LoopThread()
+            lt.start(main_s)
+            try:
+                probe_server(ctx, label, lt.port, controls, ciphers_list[:1], "pyopenssl", light=True)
+            finally:
+                lt.stop()
+
+        for i in range(12 if ctx.quick() else 48):
+            one_successor(i)
+            gc.collect()
+            ctx.count("monitor", "successive_contexts")
         with live.ProtocolServer(lambda: GeminiServerProtocol(handler), backend="stdlib", server_ident=ident) as ps2:
             plaintext_probe(ctx, "create_server_context+spy-handler", ps2.port, handler_calls=handler_calls)
         if ctx.shard == 0 or ctx.nshards == 1:
